@@ -1,0 +1,198 @@
+//go:build verif
+
+// Package vhook provides named trace/yield points for the verification
+// harness. This file is only compiled with the "verif" build tag.
+//
+// Environment:
+//
+//	VHOOK_TRACE=<file>   append "seq name" for every point hit
+//	VHOOK_SCHED=<spec>   ';'-separated list of name=action, where action is
+//	                     sleep:<duration>          sleep on every hit
+//	                     sleepn:<k>:<duration>     sleep on the k-th hit only
+//	                     await:<other>:<n>         block until point <other> was hit >= n times (10s safety timeout)
+//	                     kill:<k>                  SIGKILL the process on the k-th hit
+//	                     yield                     runtime.Gosched()
+//
+// A harness in the same process can use Set/Reset/Count/Trace instead of the environment.
+package vhook
+
+import (
+	"fmt"
+	"os"
+	"runtime"
+	"strconv"
+	"strings"
+	"sync"
+	"syscall"
+	"time"
+)
+
+// Enabled reports whether the verification hooks are compiled in.
+const Enabled = true
+
+type action struct {
+	kind  string
+	dur   time.Duration
+	other string
+	n     int
+}
+
+var (
+	mu       sync.Mutex
+	cond     = sync.NewCond(&mu)
+	counters = map[string]int{}
+	sched    = map[string]action{}
+	seq      int
+	traceF   *os.File
+	traceMem []string
+	memTrace bool
+	inited   bool
+)
+
+func parseAction(s string) (action, bool) {
+	p := strings.Split(s, ":")
+	switch p[0] {
+	case "sleep":
+		if len(p) == 2 {
+			if d, err := time.ParseDuration(p[1]); err == nil {
+				return action{kind: "sleep", dur: d}, true
+			}
+		}
+	case "sleepn":
+		if len(p) == 3 {
+			k, err1 := strconv.Atoi(p[1])
+			d, err2 := time.ParseDuration(p[2])
+			if err1 == nil && err2 == nil {
+				return action{kind: "sleepn", n: k, dur: d}, true
+			}
+		}
+	case "await":
+		if len(p) == 3 {
+			if n, err := strconv.Atoi(p[2]); err == nil {
+				return action{kind: "await", other: p[1], n: n}, true
+			}
+		}
+	case "kill":
+		if len(p) == 2 {
+			if n, err := strconv.Atoi(p[1]); err == nil {
+				return action{kind: "kill", n: n}, true
+			}
+		}
+	case "yield":
+		return action{kind: "yield"}, true
+	}
+	return action{}, false
+}
+
+func initLocked() {
+	if inited {
+		return
+	}
+	inited = true
+	if path := os.Getenv("VHOOK_TRACE"); path != "" {
+		traceF, _ = os.OpenFile(path, os.O_CREATE|os.O_WRONLY|os.O_APPEND, 0o644)
+	}
+	for _, item := range strings.Split(os.Getenv("VHOOK_SCHED"), ";") {
+		kv := strings.SplitN(item, "=", 2)
+		if len(kv) != 2 {
+			continue
+		}
+		if a, ok := parseAction(kv[1]); ok {
+			sched[kv[0]] = a
+		}
+	}
+}
+
+// Set installs an action for a point (in-process harness use).
+func Set(name, spec string) bool {
+	mu.Lock()
+	defer mu.Unlock()
+	initLocked()
+	a, ok := parseAction(spec)
+	if ok {
+		sched[name] = a
+	}
+	return ok
+}
+
+// Reset clears all actions, counters and the in-memory trace.
+func Reset(keepMemTrace bool) {
+	mu.Lock()
+	defer mu.Unlock()
+	initLocked()
+	sched = map[string]action{}
+	counters = map[string]int{}
+	traceMem = nil
+	memTrace = keepMemTrace
+	cond.Broadcast()
+}
+
+// Count returns how often a point was hit.
+func Count(name string) int {
+	mu.Lock()
+	defer mu.Unlock()
+	return counters[name]
+}
+
+// Trace returns a copy of the in-memory trace.
+func Trace() []string {
+	mu.Lock()
+	defer mu.Unlock()
+	return append([]string(nil), traceMem...)
+}
+
+// Point marks a named point in the code.
+func Point(name string) {
+	mu.Lock()
+	initLocked()
+	seq++
+	counters[name]++
+	hit := counters[name]
+	if traceF != nil {
+		fmt.Fprintf(traceF, "%d %s\n", seq, name)
+	}
+	if memTrace && len(traceMem) < 100000 {
+		traceMem = append(traceMem, name)
+	}
+	cond.Broadcast()
+	a, ok := sched[name]
+	if !ok {
+		mu.Unlock()
+		return
+	}
+	switch a.kind {
+	case "await":
+		deadline := time.Now().Add(10 * time.Second)
+		timer := time.AfterFunc(10*time.Second, func() { mu.Lock(); cond.Broadcast(); mu.Unlock() })
+		for counters[a.other] < a.n && time.Now().Before(deadline) {
+			if cur, still := sched[name]; !still || cur != a {
+				break
+			}
+			cond.Wait()
+		}
+		timer.Stop()
+		mu.Unlock()
+	case "sleep":
+		mu.Unlock()
+		time.Sleep(a.dur)
+	case "sleepn":
+		mu.Unlock()
+		if hit == a.n {
+			time.Sleep(a.dur)
+		}
+	case "kill":
+		if hit == a.n {
+			if traceF != nil {
+				traceF.Sync()
+			}
+			syscall.Kill(os.Getpid(), syscall.SIGKILL)
+			select {}
+		}
+		mu.Unlock()
+	case "yield":
+		mu.Unlock()
+		runtime.Gosched()
+	default:
+		mu.Unlock()
+	}
+}
